@@ -279,6 +279,33 @@ class Puppet:
             agg += [M.sig_timeout(self.c[i][0], t) for i in gr]
         self.V = V + 1
         self.J = {"timeout": M.tqc(M.view(G, E, V), entries, agg)}
+        if imp is not None and rng.chance(1, 3):
+            # A second TimeoutQC for the SAME view, assembled elsewhere: one of its signers (x) holds a commit
+            # certificate for this view's block that formed at x only and that this replica has never been shown.
+            # It arrives in the new-view message of the next leader, possibly after the replica has already
+            # assembled its own TimeoutQC for the view. (process_timeout_qc must still process the high_qc.)
+            nblk, oh = imp
+            pidx = prop_vote["h"]["p"] if prop_vote is not None else (oh if oh is not None else self.fresh_pid())
+            votex = M.commit(M.view(G, E, V), M.header(nblk, pidx))
+            cq = M.valid_cqc(self.c, votex, self.quorum_subset())
+            idx2 = self.quorum_subset()
+            x = rng.choice(idx2)
+            by2 = dict(msgs_by_member)
+            by2[x] = M.timeout(M.view(G, E, V), votex, cq)
+            groups2 = {}
+            for i in idx2:
+                groups2.setdefault(json.dumps(by2[i], sort_keys=True), []).append(i)
+            entries2, agg2 = [], []
+            for k, gr in groups2.items():
+                t = json.loads(k)
+                entries2.append((t, [i in gr for i in range(self.n)]))
+                agg2 += [M.sig_timeout(self.c[i][0], t) for i in gr]
+            j2 = {"timeout": M.tqc(M.view(G, E, V), entries2, agg2)}
+            self.note("new_view:second_tqc_same_view_higher_commit_qc")
+            self.msg(self.leader(V + 1) if rng.chance(3, 4) else rng.choice(self.members), {"new_view": {"j": j2}})
+            self.last_cqc = cq
+            self.blocks[nblk] = (pidx, cq)
+            self.J = j2
 
     def my_vote_old(self, i):
         return self.my_vote if self.rng.chance(2, 3) else None
